@@ -1,0 +1,249 @@
+//go:build verif
+
+package lua
+
+import "reflect"
+
+// Verification hooks, compiled only with `-tags verif`. They let an external
+// deterministic simulator observe and perturb a state at instruction
+// boundaries and around blocking channel operations, and read (never write)
+// a few internals. Nothing here changes behaviour unless a simulator attaches
+// callbacks to a state's Global.
+
+// Channel operation kinds reported to VerifChanPre/Post.
+const (
+	VerifChanSend = iota
+	VerifChanRecv
+	VerifChanSelect
+	VerifChanClose
+)
+
+type verifGlobal struct {
+	step     func(L *LState)
+	dispatch func(L *LState)
+	chanPre  func(L *LState, op int, cases []VerifChanCase, hasDefault bool)
+	chanPost func(L *LState, op int, pos int, ok bool)
+}
+
+func verifStep(L *LState) {
+	if f := L.G.verif.step; f != nil {
+		f(L)
+	}
+}
+
+func verifDispatch(L *LState) {
+	if f := L.G.verif.dispatch; f != nil {
+		f(L)
+	}
+}
+
+// VerifChanCase is one channel operand of a pending blocking operation.
+type VerifChanCase struct {
+	Ch   chan LValue
+	Send bool
+}
+
+func verifChanPre(L *LState, op int, ch reflect.Value) {
+	if f := L.G.verif.chanPre; f != nil {
+		c, _ := ch.Interface().(chan LValue)
+		f(L, op, []VerifChanCase{{Ch: c, Send: op == VerifChanSend}}, false)
+	}
+}
+
+func verifSelectPre(L *LState, cases []reflect.SelectCase) {
+	if f := L.G.verif.chanPre; f != nil {
+		var out []VerifChanCase
+		hasDefault := false
+		n := len(cases)
+		if L.ctx != nil {
+			n-- // the last case is the context's Done channel
+		}
+		for i := 0; i < n; i++ {
+			c := cases[i]
+			switch c.Dir {
+			case reflect.SelectDefault:
+				hasDefault = true
+				out = append(out, VerifChanCase{})
+			default:
+				ch, _ := c.Chan.Interface().(chan LValue)
+				out = append(out, VerifChanCase{Ch: ch, Send: c.Dir == reflect.SelectSend})
+			}
+		}
+		f(L, VerifChanSelect, out, hasDefault)
+	}
+}
+
+func verifChanPost(L *LState, op int, pos int, ok bool) {
+	if f := L.G.verif.chanPost; f != nil {
+		f(L, op, pos, ok)
+	}
+}
+
+// VerifSetStepHook installs fn to be called once per VM loop iteration of every
+// thread of L's state, after the instruction fetch and before the context poll.
+func VerifSetStepHook(L *LState, fn func(*LState)) { L.G.verif.step = fn }
+
+// VerifSetDispatchHook installs fn to be called in the context-aware main loop
+// on the branch that actually dispatches an instruction.
+func VerifSetDispatchHook(L *LState, fn func(*LState)) { L.G.verif.dispatch = fn }
+
+// VerifSetChanHooks installs callbacks around blocking channel operations.
+func VerifSetChanHooks(L *LState, pre func(*LState, int, []VerifChanCase, bool), post func(*LState, int, int, bool)) {
+	L.G.verif.chanPre = pre
+	L.G.verif.chanPost = post
+}
+
+// VerifFrameInfo describes one call frame.
+type VerifFrameInfo struct {
+	IsG       bool
+	Base      int
+	LocalBase int
+	NRegs     int // NumUsedRegisters for Lua functions, 0 for Go functions
+	Pc        int
+	Line      int
+}
+
+// VerifDepth returns the number of call frames of this thread.
+func VerifDepth(L *LState) int { return L.stack.Sp() }
+
+// VerifFrames lists the call frames of this thread, outermost first.
+func VerifFrames(L *LState) []VerifFrameInfo {
+	n := L.stack.Sp()
+	out := make([]VerifFrameInfo, 0, n)
+	for i := 0; i < n; i++ {
+		cf := L.stack.At(i)
+		fi := VerifFrameInfo{Base: cf.Base, LocalBase: cf.LocalBase, Pc: cf.Pc}
+		if cf.Fn != nil {
+			fi.IsG = cf.Fn.IsG
+			if !cf.Fn.IsG && cf.Fn.Proto != nil {
+				fi.NRegs = int(cf.Fn.Proto.NumUsedRegisters)
+				if cf.Pc > 0 && cf.Pc-1 < len(cf.Fn.Proto.DbgSourcePositions) {
+					fi.Line = cf.Fn.Proto.DbgSourcePositions[cf.Pc-1]
+				}
+			}
+		}
+		out = append(out, fi)
+	}
+	return out
+}
+
+// VerifChainDepth returns the frame count of this thread plus all threads on
+// its resume chain (Parent links).
+func VerifChainDepth(L *LState) int {
+	n := 0
+	for t := L; t != nil; t = t.Parent {
+		n += t.stack.Sp()
+	}
+	return n
+}
+
+// VerifRegTop returns the registry top of this thread.
+func VerifRegTop(L *LState) int { return L.reg.Top() }
+
+// VerifRegLen returns the allocated registry length of this thread.
+func VerifRegLen(L *LState) int { return len(L.reg.array) }
+
+// VerifHasCurrentFrame reports whether the thread has a current frame.
+func VerifHasCurrentFrame(L *LState) bool { return L.currentFrame != nil }
+
+// VerifCurrentLocalBase returns LocalBase of the current frame, or -1.
+func VerifCurrentLocalBase(L *LState) int {
+	if L.currentFrame == nil {
+		return -1
+	}
+	return L.currentFrame.LocalBase
+}
+
+// VerifHasErrorFunc exposes the hasErrorFunc flag.
+func VerifHasErrorFunc(L *LState) bool { return L.hasErrorFunc }
+
+// VerifWrapped reports whether a thread was created by coroutine.wrap.
+func VerifWrapped(L *LState) bool { return L.wrapped }
+
+// VerifHasContext reports whether a context is attached to the thread.
+func VerifHasContext(L *LState) bool { return L.ctx != nil }
+
+// VerifOpenUpvalues returns the register indices of the open upvalues of a thread.
+func VerifOpenUpvalues(L *LState) []int {
+	var out []int
+	for uv := L.uvcache; uv != nil; uv = uv.next {
+		if !uv.closed {
+			out = append(out, uv.index)
+		}
+	}
+	return out
+}
+
+// VerifUpvalueIDs returns the identities of the upvalue cells of a Lua closure.
+func VerifUpvalueIDs(fn *LFunction) []*Upvalue {
+	out := make([]*Upvalue, len(fn.Upvalues))
+	copy(out, fn.Upvalues)
+	return out
+}
+
+// VerifStringConstants exposes the derived string constant table of a prototype.
+func VerifStringConstants(p *FunctionProto) []string { return p.stringConstants }
+
+// VerifCallFrameStack drives a call-frame stack implementation directly.
+type VerifCallFrameStack struct{ s callFrameStack }
+
+// VerifNewCallFrameStack creates a fixed or auto-growing call-frame stack.
+func VerifNewCallFrameStack(size int, autoGrow bool) *VerifCallFrameStack {
+	if autoGrow {
+		return &VerifCallFrameStack{newAutoGrowingCallFrameStack(size)}
+	}
+	return &VerifCallFrameStack{newFixedCallFrameStack(size)}
+}
+
+func (v *VerifCallFrameStack) Push(tag int) { v.s.Push(callFrame{Pc: tag, Base: tag * 3}) }
+func (v *VerifCallFrameStack) Pop() (int, int, int) {
+	cf := v.s.Pop()
+	if cf == nil {
+		return -1, -1, -1
+	}
+	return cf.Pc, cf.Base, cf.Idx
+}
+func (v *VerifCallFrameStack) Last() (int, int, int) {
+	cf := v.s.Last()
+	if cf == nil {
+		return -1, -1, -1
+	}
+	return cf.Pc, cf.Base, cf.Idx
+}
+func (v *VerifCallFrameStack) At(i int) (int, int, int) {
+	cf := v.s.At(i)
+	if cf == nil {
+		return -1, -1, -1
+	}
+	return cf.Pc, cf.Base, cf.Idx
+}
+func (v *VerifCallFrameStack) Sp() int       { return v.s.Sp() }
+func (v *VerifCallFrameStack) SetSp(sp int)  { v.s.SetSp(sp) }
+func (v *VerifCallFrameStack) IsEmpty() bool { return v.s.IsEmpty() }
+func (v *VerifCallFrameStack) IsFull() bool  { return v.s.IsFull() }
+func (v *VerifCallFrameStack) FreeAll()      { v.s.FreeAll() }
+
+// VerifRegistry drives a registry directly. Overflow is reported through the
+// handler as a panic with the value "verif: registry overflow".
+type VerifRegistry struct{ r *registry }
+
+type verifRegHandler struct{}
+
+func (verifRegHandler) registryOverflow() { panic("verif: registry overflow") }
+
+func VerifNewRegistry(initial, growBy, maxSize int) *VerifRegistry {
+	return &VerifRegistry{newRegistry(verifRegHandler{}, initial, growBy, maxSize, newAllocator(32))}
+}
+
+func (v *VerifRegistry) Push(x LValue)                       { v.r.Push(x) }
+func (v *VerifRegistry) Pop() LValue                         { return v.r.Pop() }
+func (v *VerifRegistry) Get(i int) LValue                    { return v.r.Get(i) }
+func (v *VerifRegistry) Set(i int, x LValue)                 { v.r.Set(i, x) }
+func (v *VerifRegistry) SetNumber(i int, x LNumber)          { v.r.SetNumber(i, x) }
+func (v *VerifRegistry) SetTop(i int)                        { v.r.SetTop(i) }
+func (v *VerifRegistry) Top() int                            { return v.r.Top() }
+func (v *VerifRegistry) CopyRange(regv, start, limit, n int) { v.r.CopyRange(regv, start, limit, n) }
+func (v *VerifRegistry) FillNil(regm, n int)                 { v.r.FillNil(regm, n) }
+func (v *VerifRegistry) Insert(x LValue, reg int)            { v.r.Insert(x, reg) }
+func (v *VerifRegistry) IsFull() bool                        { return v.r.IsFull() }
+func (v *VerifRegistry) Len() int                            { return len(v.r.array) }
